@@ -30,6 +30,8 @@ type world struct {
 	nEnc     int
 	pools    map[string][]*gcase     // grid points usable in the keyset stream, by primitive class
 	perturb  map[string][]perturbSrc // serializations kept for the perturbation stream, by type URL
+	unser    []perturbSrc            // keys the constructors accept but SerializeKey refuses
+	unserN   map[string]int
 }
 
 // violate reports the first reproducer of a class and counts the rest.
@@ -283,6 +285,12 @@ func (w *world) runKeyCase(c *gcase, r *hlib.Rng, allIDs bool) {
 			w.violate("created-key-parameters-differ/"+c.typ, "%s[%s]", c.typ, c.label)
 		}
 		s := w.checkKey(c, k, idc, "key")
+		if s == nil && w.unserN[c.typ] < 8 {
+			if _, err := protoserialization.SerializeKey(k); err != nil {
+				w.unserN[c.typ]++
+				w.unser = append(w.unser, perturbSrc{c: c, k: k})
+			}
+		}
 		w.keepForPerturbation(c, k, s)
 		if pk, ok := k.(pubber); ok {
 			pub, err := pk.PublicKey()
